@@ -274,7 +274,11 @@ class _ShapeNF(ast.NodeTransformer):
                     and len(inner.args) == 1 and isinstance(inner.args[0], ast.GeneratorExp) \
                     and ((inner.func.id == "any") != (inner is not t)):
                 last.body = list(last.body) + [ast.copy_location(ast.Return(value=None), last)]
-        return self.generic_visit(node)
+        self._infn = getattr(self, "_infn", 0) + 1
+        try:
+            return self.generic_visit(node)
+        finally:
+            self._infn -= 1
 
     def _unroll(self, s):
         """N9  loop over a literal table:  for a, b in ((A1, B1), (A2, B2)): BODY   ->   BODY[a:=A1, b:=B1] ; BODY[a:=A2, b:=B2]
@@ -395,7 +399,7 @@ class _ShapeNF(ast.NodeTransformer):
             stmts = merged
         out = []
         for s in stmts:
-            if "N9" in _OPT:
+            if "N9" in _OPT and getattr(self, "_infn", 0) > 0:       # function bodies only: module-level loops (package imports) stay
                 u = self._unroll(s)
                 if u is not None and not self._used_after(stmts, s):
                     out.extend(self._block(u, chain))
